@@ -4,6 +4,7 @@ from bounded import b_seq as B
 from contracts import sequences as S
 
 P_UNITS = [PUnit("seq-option-linear-chain", S.CONTRACTS, S.REG),
+           PUnit("file-reader-linear-chain", [S.LINEAR_NX], S.REG2),
            LUnit("prefix-sum-monotone", S.lemma_ps_monotone)]
 
 
